@@ -359,6 +359,9 @@ class LabeledDirectedGraph {
         Edges(const LabeledDirectedGraph<EdgeLabel> &graph) : graph(graph) {}
 
         constEdgeIterator begin() const {
+            if (graph.getSize() == 0)
+                return end();
+
             VertexIndex endVertex = getEndVertex(graph);
 
             VertexIndex vertexWithFirstEdge = 0;
@@ -374,10 +377,19 @@ class LabeledDirectedGraph {
             return constEdgeIterator(graph, vertexWithFirstEdge, neighbour);
         }
         constEdgeIterator end() const {
+            if (graph.getSize() == 0)
+                return constEdgeIterator(graph, 0, noSuccessors().end());
+
             VertexIndex endVertex = getEndVertex(graph);
             return constEdgeIterator(
                 graph, endVertex, graph.getOutNeighbours(endVertex).end()
             );
+        }
+        // A graph without vertices has no neighbour list to take iterators
+        // from.
+        static const Successors &noSuccessors() {
+            static const Successors empty;
+            return empty;
         }
         static VertexIndex
         getEndVertex(const LabeledDirectedGraph<EdgeLabel> &graph) {
